@@ -86,6 +86,19 @@ func NewDomConverter(flags ConverterFlag, builder webdoc.DocumentBuilder, pageUR
 func (dc *DomConverter) Convert(root *html.Node) {
 	clone := dom.Clone(root, true)
 	removeForeignRawTextElements(root, clone, false)
+
+	// An unlikely candidate is skipped with everything below it. Those outside tables
+	// are taken out before the walk, so that what is decided by looking at the
+	// descendants of an element (the length of a byline, a wrapper without content,
+	// a scripted link with nothing but text) is decided on what will be visited.
+	// (Inside a table they stay until the table has been classified.)
+	if dc.hasFlag(SkipUnlikelies) {
+		for _, descendant := range dom.GetElementsByTagName(clone, "*") {
+			if descendant.Parent != nil && isUnlikelyCandidate(descendant) && !domutil.HasAncestor(descendant, "table") {
+				descendant.Parent.RemoveChild(descendant)
+			}
+		}
+	}
 	domutil.WalkNodes(clone, dc.visitNodeHandler, dc.exitNodeHandler)
 }
 
